@@ -52,11 +52,18 @@ pub fn random_call(rng: &mut Rng, pool: &[Tree]) -> Call {
             })
         }),
         1 => ("build_array", {
-            let parts = vec![a.clone(), b.clone(), a.clone()];
+            let k = rng.below(4);
+            let parts: Vec<Vec<u8>> = (0..k).map(|_| if rng.bool() { a.clone() } else { b.clone() }).collect();
             Box::new(move |d, _| e(jsonb::build_array(parts.iter().map(|x| x.as_slice()), d)))
         }),
         2 => ("build_object", {
-            let parts = vec![("b".to_string(), a.clone()), ("a".to_string(), b.clone())];
+            // keys in arbitrary order, sometimes repeated (the last of duplicate keys wins)
+            let k = rng.below(5);
+            let mut parts: Vec<(String, Vec<u8>)> = (0..k).map(|_| (gen::key(rng), if rng.bool() { a.clone() } else { b.clone() })).collect();
+            if !parts.is_empty() && rng.chance(1, 2) {
+                let d = (parts[rng.below(parts.len())].0.clone(), b.clone());
+                parts.push(d);
+            }
             Box::new(move |d, _| e(jsonb::build_object(parts.iter().map(|(k, x)| (k.as_str(), x.as_slice())), d)))
         }),
         3 => ("concat", Box::new(move |d, _| e(jsonb::concat(&a, &b, d)))),
